@@ -122,7 +122,21 @@ func (e *posEngine) generate(r *rng, n int, tier string, emit func(string)) {
 			tb.write("\n")
 		}
 		via := r.intn(8)
+		if r.chance(1, 7) {
+			via = 100
+		}
 		switch {
+		case via == 100:
+			// TWINS: the same library-macro call, written identically, stands in two functions on different lines; the
+			// first one is evaluated (successfully) before the second one fails: the error belongs to the SECOND text
+			fault = "(nth v i)"
+			mac := r.pick([]string{"(cond (< i 0) nil\n        true (nth v i))", "(or false\n      (nth v i))", "(and true\n       (nth v i))", "(-> (nth v i)\n      (list))"})
+			tb.write("(def pick (fn [v i]\n  " + mac + "))\n(pick [1 2 3] 1)\n")
+			for k, m := 0, r.intn(3); k < m; k++ {
+				tb.write(r.pick(fillerForms) + "\n")
+			}
+			place("(def pick-last (fn [v i]\n" + r.pick([]string{"", "  ; same lookup, from the end\n", "\n"}) + "  " + mac + "))")
+			tb.write("(pick-last [1 2 3] 9)\n")
 		case via < 3:
 			place(wrapFault(r, fault))
 		default:
